@@ -181,14 +181,18 @@ def entries_of(params):
     return out
 
 
-def parse_event(surface, q, kb, csv, export=False):
-    """One reading of q by the real code -> (event for QueryStringTrace, request or None)."""
+def parse_event(surface, q, kb, csv, export=False, given=None):
+    """One reading of q by the real code -> (event for QueryStringTrace, request or None).
+    given: a Request object some application run produced (its mapping is read instead of making one)."""
     from falcon import uri
     e = {'op': 'parse', 'q': cps(q), 'kb': kb, 'csv': csv, 'entries': [], 'err': False, 'export': export,
          'm': [], 'cl': False, 'prefix': False}
     req = None
     try:
-        if surface == 'func':
+        if given is not None:
+            req = given
+            params = req.params
+        elif surface == 'func':
             params = uri.parse_query_string(q, keep_blank=kb, csv=csv)
         else:
             req = make_request(surface, q, kb, csv)
@@ -225,12 +229,28 @@ class Sentinel:
         return '<default>'
 
 
-def getter_event(req, name, call, present, convs, zero=False):
-    """One getter call on a real request -> event for ParamGettersTrace."""
+class RecDict(dict):
+    """The caller's store dict, shared by the calls of a history; logs every write."""
+
+    def __init__(self):
+        super().__init__()
+        self.writes = []
+
+    def __setitem__(self, k, v):
+        self.writes.append((k, v))
+        super().__setitem__(k, v)
+
+
+def getter_event(req, name, call, present, convs, zero=False, shared=None):
+    """One getter call on a real request -> event for ParamGettersTrace.  `shared`: the RecDict the
+    calls of a history share as store (used when the call passes a store).  e['ret'] keeps a returned
+    list so that the caller can edit it afterwards."""
     import falcon
     kind = call['kind']
     dflt = Sentinel()
-    store = {} if call['store'] else None
+    store = (shared if shared is not None else RecDict()) if call['store'] else None
+    if store is not None:
+        del store.writes[:]
     kw = {'required': call['required']}
     if call['hasdef']:
         kw['default'] = dflt
@@ -249,7 +269,7 @@ def getter_event(req, name, call, present, convs, zero=False):
             'uuid': 'get_param_as_uuid', 'datetime': 'get_param_as_datetime', 'date': 'get_param_as_date',
             'json': 'get_param_as_json', 'list': 'get_param_as_list', 'list_int': 'get_param_as_list', 'has': 'has_param'}[kind]
     e = {'present': present, 'zero': zero, 'convs': convs, 'call': call, 'res': 'none', 'v': 0, 'vs': [], 'stored': False,
-         'sv': 0, 'svs': [], 'exc': ''}
+         'sv': 0, 'svs': [], 'mapsame': True, 'exc': '', 'ret': None}
     try:
         if kind == 'has':
             r = req.has_param(name)
@@ -267,16 +287,17 @@ def getter_event(req, name, call, present, convs, zero=False):
             e['res'] = 'value'
             if kind in ('list', 'list_int'):
                 e['vs'] = [project('str' if kind == 'list' else 'int', x) for x in r]
+                e['ret'] = r if isinstance(r, list) else None
             else:
                 e['v'] = project(kind, r)
-        if store:
-            if list(store) != [name]:
-                raise AssertionError('store written under other keys: %r' % (store,))
+        if store is not None and store.writes:
+            if [k for k, _ in store.writes] != [name]:
+                raise AssertionError('store written under other keys / more than once: %r' % (store.writes,))
             e['stored'] = True
             if kind in ('list', 'list_int'):
-                e['svs'] = [project('str' if kind == 'list' else 'int', x) for x in store[name]]
+                e['svs'] = [project('str' if kind == 'list' else 'int', x) for x in store.writes[0][1]]
             else:
-                e['sv'] = project(kind, store[name])
+                e['sv'] = project(kind, store.writes[0][1])
     except falcon.HTTPMissingParam:
         e['res'] = 'missing'
     except falcon.HTTPInvalidParam:
@@ -289,7 +310,7 @@ def getter_event(req, name, call, present, convs, zero=False):
     except Exception as ex:
         e['res'] = 'crash'
         e['exc'] = repr(ex)[:200]
-    if store is not None and e['res'] != 'value' and store:
+    if store is not None and e['res'] != 'value' and store.writes:
         e['stored'] = True
     return e
 
@@ -323,7 +344,7 @@ def run_judge(ctx, module, traces, chunk=1500, workers=8):
 
 
 def strip(e):
-    return {k: v for k, v in e.items() if k not in ('exc', 'meta', 'shown')}
+    return {k: v for k, v in e.items() if k not in ('exc', 'meta', 'shown', 'ret')}
 
 
 def judge_each(ctx, module, events, per=25, cap=300):
@@ -420,29 +441,53 @@ def random_call(rng, kind):
     return c
 
 
+def edit_returned_list(e, entries_before, name):
+    """Between two calls of a history the caller edits the list a list getter returned.  Only where
+    the list cannot legitimately be the request's own one: the mapping held a scalar (or nothing) for the
+    name, or a transform was applied.  (For a repeated name falcon documents nothing and returns its
+    internal list; that is noted in the report, not judged.)"""
+    r = e.get('ret')
+    if r is None:
+        return
+    held = [x for x in entries_before if txt(x['k']) == name]
+    if e['call']['kind'] == 'list_int' or not held or held[0]['shape'] == 'scalar':
+        r.append('31337' if e['call']['kind'] == 'list' else 31337)
+        r[0:1] = []
+
+
 def getter_events_for(ctx, rng, surface, req, q, kb, csv, spec_entries, spec_zero, impl_entries, kinds, events, origin):
-    """Record getter calls on a real request for every name of the reference reading, every name
-    the code reports, and an absent one."""
+    """A history of getter calls on ONE real request: for every name of the reference reading, every
+    name the code reports, and an absent one.  After every call the request's mapping is read again
+    (it must be what it was before the history) and a returned list is edited by the caller."""
     spec = {txt(x['k']): [txt(v) for v in x['v']] for x in spec_entries}
     zero = {txt(k) for k in spec_zero}          # names present with zero values (reference reading)
     names = list(dict.fromkeys(list(spec) + sorted(zero) + [txt(x['k']) for x in impl_entries] + [ABSENT]))
-    for name in names:
+    shared = RecDict()
+    steps = [(name, kind) for name in names for kind in kinds]
+    rng.shuffle(steps)
+    for name, kind in steps:
         vals = spec.get(name)
-        for kind in kinds:
-            call = random_call(rng, kind)
-            try:
-                convs = [refconv(kind, v) for v in vals] if vals and kind != 'has' else []
-            except Unrepresentable:
-                continue
-            if kind not in ('list', 'list_int'):
-                convs = convs[-1:] if convs else []      # (the judge needs the last one only; keeps events small)
-            e = getter_event(req, name, call, vals is not None, convs, name in zero)
-            if e is None:
-                continue
-            e['meta'] = {'surface': surface, 'q': q, 'kb': kb, 'csv': csv, 'name': name, 'origin': origin}
-            k = digest([e['present'], e['zero'], e['convs'], e['call'], e['res'], e['v'], e['vs'], e['stored'], e['sv'], e['svs']])
-            ctx.case(None, nontrivial=any(c in q for c in '%+,') or len(vals or ()) > 1, key=('g', surface, q, kb, csv, name, kind))
-            events.setdefault(k, e)
+        call = random_call(rng, kind)
+        try:
+            convs = [refconv(kind, v) for v in vals] if vals and kind != 'has' else []
+        except Unrepresentable:
+            continue
+        if kind not in ('list', 'list_int'):
+            convs = convs[-1:] if convs else []      # (the judge needs the last one only; keeps events small)
+        shared.clear()
+        e = getter_event(req, name, call, vals is not None, convs, name in zero, shared)
+        if e is None:
+            continue
+        edit_returned_list(e, impl_entries, name)
+        try:
+            e['mapsame'] = entries_of(req.params) == impl_entries
+        except Exception:
+            e['mapsame'] = False
+        e['meta'] = {'surface': surface, 'q': q, 'kb': kb, 'csv': csv, 'name': name, 'origin': origin}
+        k = digest([e['present'], e['zero'], e['convs'], e['call'], e['res'], e['v'], e['vs'], e['stored'], e['sv'],
+                    e['svs'], e['mapsame']])
+        ctx.case(None, nontrivial=any(c in q for c in '%+,') or len(vals or ()) > 1, key=('g', surface, q, kb, csv, name, kind))
+        events.setdefault(k, e)
 
 
 def has_repeat(entries):
@@ -510,8 +555,10 @@ def run(ctx):
                      key=(surface, q, c['kb'], c['csv']))
             if e['err'] or e['entries'] != c['entries']:
                 suspects.append((e, surface))
-            if req is not None and (n % gsample == 0 or c['blankcsv']):
+            if req is not None and (n % gsample == 0 or c['blankcsv'] or len(q) > 12):
                 kinds = ['str', 'list', 'has', typed[(n // gsample) % len(typed)]]
+                if len(q) > 12:          # (the hand-picked long ones: >= 8 '%' tokens in one name/value)
+                    kinds = ['str', 'list', 'has', 'int', 'float', 'list_int']
                 getter_events_for(ctx, rng, surface, req, q, c['kb'], c['csv'], c['entries'], c['zero'], e['entries'], kinds,
                                   gevents, 'enumerated query string')
     ctx.traces_validated += len(parse_cases)
@@ -612,17 +659,21 @@ def run(ctx):
             continue
         for surface in ('wsgi', 'asgi'):
             key = (surface, q)
-            if key not in reqcache:
-                reqcache[key] = make_request(surface, q, kb, csv)
-            req = reqcache[key]
+            if key not in reqcache:      # one request object serves all the cases on its query string: a long history
+                rq = make_request(surface, q, kb, csv)
+                reqcache[key] = (rq, entries_of(rq.params))
+            req, before = reqcache[key]
             convs = [table['conv'][ck][i - 1] for i in c['vals']] if kind != 'has' else []
             e = getter_event(req, 'p', call, c['present'], convs, c['zero'])
             if e is None:
                 continue
+            edit_returned_list(e, before, 'p')
+            e['mapsame'] = entries_of(req.params) == before
             ctx.case(None, nontrivial=len(vals) > 1 or any(x in q for x in '%+,'), key=('gp', surface, q, digest(call)))
             same = any(e['res'] == w['res'] and e['stored'] == w['stored'] and
                        (w['res'] != 'value' or (e['v'] == w['v'] and e['vs'] == w['vs'])) and
-                       (not w['stored'] or (e['sv'] == w['v'] and e['svs'] == w['vs'])) for w in accepted)
+                       (not w['stored'] or (e['sv'] == w['v'] and e['svs'] == w['vs'])) for w in accepted) \
+                and e['mapsame']
             if not same:
                 e['meta'] = {'surface': surface, 'q': q, 'kb': kb, 'csv': csv, 'name': 'p', 'origin': 'pool'}
                 gsus.append(e)
@@ -638,6 +689,64 @@ def run(ctx):
                 raise MachineryError('replay and judge disagree on %r' % (strip(e),))
             report_getter(ctx, v, e, 'leg A (TLC-computed case)')
 
+    # ---- leg M + A: histories of getter calls on one request ---------------------------------------
+    rh2 = ctx.tlc('MC_ParamGetters', 'MC_ParamGettersH.cfg', coverage=True, workers=6, timeout=600, env={'CONV_FILE': cpath})
+    ctx.require_coverage(rh2, ['XGetParam', 'XGetInt', 'XGetList', 'XGetListInt', 'XHasParam'])
+    rs = ctx.tlc('MC_ParamGetters', 'MC_ParamGettersSim.cfg', simulate={'num': ctx.pick(6, 60)}, depth=4, seed=ctx.seed + 1,
+                 workers=4, timeout=600, count=False, env={'CONV_FILE': cpath})
+    hist = list({digest(b): b for b in rs.json}.values())
+    rng.shuffle(hist)
+    hist = hist[:ctx.pick(1500, 25000)]
+    hsus = []
+    ncalls = 0
+    for b in hist:
+        vals = [pool[i - 1] for i in b['vals']]
+        q, kb, csv = ('p=,', False, True) if b['zero'] else \
+            ('&'.join('p=' + urllib.parse.quote(v, safe='') for v in vals), True, False)
+        if not b['present'] and not b['zero']:
+            q = 'other=1'
+        skip = False
+        for st in b['ev']:
+            kind = st['call']['kind']
+            ck = 'int' if kind == 'list_int' else 'str' if kind == 'list' else kind
+            if kind != 'has' and any((ck, i) in unrep for i in b['vals']):
+                skip = True
+        if skip:
+            continue
+        for surface in ('wsgi', 'asgi'):
+            req = make_request(surface, q, kb, csv)          # a fresh request object per history
+            before = entries_of(req.params)
+            shared = RecDict()
+            for st in b['ev']:
+                call = st['call']
+                kind = call['kind']
+                ck = 'int' if kind == 'list_int' else 'str' if kind == 'list' else kind
+                convs = [table['conv'][ck][i - 1] for i in b['vals']] if kind != 'has' else []
+                e = getter_event(req, 'p', call, b['present'], convs, b['zero'], shared)
+                if e is None:
+                    break
+                edit_returned_list(e, before, 'p')
+                e['mapsame'] = entries_of(req.params) == before
+                ncalls += 1
+                w = st['last']
+                same = e['mapsame'] and e['res'] == w['res'] and e['stored'] == w['stored'] and \
+                    (w['res'] != 'value' or (e['v'] == w['v'] and e['vs'] == w['vs'])) and \
+                    (not w['stored'] or (e['sv'] == w['v'] and e['svs'] == w['vs']))
+                if not same:
+                    e['meta'] = {'surface': surface, 'q': q, 'kb': kb, 'csv': csv, 'name': 'p',
+                                 'origin': 'history %s' % [s['call']['kind'] for s in b['ev']]}
+                    hsus.append(e)
+            ctx.case(None, nontrivial=True, key=('h', surface, digest(b)))
+    ctx.traces_validated += len(hist)
+    ctx.extra['getter_histories_replayed'] = len(hist)
+    ctx.progress('leg A (getter histories): %d TLC histories x 2 surfaces, %d calls, %d differ' % (len(hist), ncalls, len(hsus)))
+    if hsus:
+        uniq = list({digest(strip(e)): e for e in hsus}.values())[:1500]
+        vs, _ = judge_each(ctx, 'ParamGettersTrace', uniq, per=10)
+        for e, v in zip(uniq, vs):
+            if v is not None and v != 'ok':          # ('ok': another acceptable outcome of a zero-values name)
+                report_getter(ctx, v, e, 'leg A (TLC-computed %s)' % e['meta']['origin'])
+
     # ---- leg B: random longer query strings ----------------------------------------------------------
     names = ['a', 'b', 'a', '%61', 'é', 'a%20b', '', 'id', 'a+b', '%C3%A9', 'x%', 'q']
     values = ['', '', '1', '12', '-3', '+7', '%31%32', '1.5', '.5', '1e2', 'true', 'True', 'no', 'on', 'maybe',
@@ -647,8 +756,23 @@ def run(ctx):
               ' 1', '1%20', '0x10', '1,2', ',', ',,', '1,', ',2', '1,,3', '%2C,%2c']
     alpha = [chr(x) for x in (38, 61, 44, 43, 37, 52, 49, 67, 51, 97, 71, 0, 233)]
 
+    HEXD = '0123456789abcdefABCDEF'
+    MALFORMED = ('%1', '%a', '%+9', '%-9', '% 9', '%zz', '%', '%%', '%0x9', '%9+', '%1%', '%g1')
+
+    def long_escaped():
+        """one name/value with >= 8 '%' tokens: well-formed escapes mixed with malformed ones"""
+        parts = ['%3' + rng.choice('0123456789') for _ in range(rng.randint(7, 10))]
+        if rng.random() < 0.3:
+            parts += ['%' + rng.choice(HEXD) + rng.choice(HEXD) for _ in range(rng.randint(1, 3))]
+        for _ in range(rng.randint(1, 2)):
+            parts.insert(rng.choice((len(parts), len(parts), 0, rng.randrange(len(parts) + 1))), rng.choice(MALFORMED))
+        return ''.join(parts)
+
     def rand_qs():
         t = rng.random()
+        if t < 0.12:
+            v = long_escaped()
+            return rng.choice(('n=' + v, v + '=1', 'n=1&n=' + v, 'n=4,' + v, 'a=b&' + v + '=' + long_escaped()))
         if t < 0.25:
             return ''.join(rng.choice(alpha) for _ in range(rng.randint(5, rng.choice((6, 9, 14, 40)))))
         fields = []
@@ -740,6 +864,136 @@ def run(ctx):
         if v is not None and v != 'ok':
             report_render(ctx, v, e, 'leg B (recorded call)')
     ctx.progress('leg B: %d to_query_str calls judged' % len(revents))
+
+    # ---- request pairs: what was done to one request must not show in another ---------------------
+    import io
+    import warnings
+    FORM = b'page=9&token=s3cret&a=POISON&x=POISON'
+    MUT = {'op': 'mutate', 'q': [], 'kb': False, 'csv': False, 'entries': [], 'err': False, 'export': False,
+           'm': [], 'cl': False, 'prefix': False}
+
+    def spoil(req, mode):
+        """what a responder may do to ITS OWN request"""
+        if mode == 'list':
+            for name in list(req.params):
+                lst = req.get_param_as_list(name)
+                if isinstance(lst, list):
+                    lst.append('POISON')
+                    lst[0:1] = ['X']
+        elif mode == 'inner':
+            for v in req.params.values():
+                if isinstance(v, list):
+                    v.append('POISON')
+        elif mode == 'params':
+            for name in list(req.params):
+                req.params[name] = 'POISON'
+            req.params['token'] = 's3cret'
+
+    def form_request(q, kb, csv):
+        import falcon
+        opts = falcon.RequestOptions()
+        opts.keep_blank_qs_values, opts.auto_parse_qs_csv = kb, csv
+        with warnings.catch_warnings():
+            warnings.simplefilter('ignore')
+            opts.auto_parse_form_urlencoded = True
+        env = dict(_bases()['env'])
+        env.update({'REQUEST_METHOD': 'POST', 'QUERY_STRING': q, 'CONTENT_TYPE': 'application/x-www-form-urlencoded',
+                    'CONTENT_LENGTH': str(len(FORM)), 'wsgi.input': io.BytesIO(FORM)})
+        return falcon.Request(env, options=opts)
+
+    class Keep:                      # responder: spoils its request in the given way, keeps the object
+        def __init__(self, mode):
+            self.mode, self.reqs = mode, []
+
+        def on_get(self, req, resp):
+            self.reqs.append(req)
+            spoil(req, self.mode)
+
+        on_post = on_get
+
+    class AKeep(Keep):
+        async def on_get(self, req, resp):
+            self.reqs.append(req)
+            spoil(req, self.mode)
+
+        on_post = on_get
+
+    def make_app(surface, kb, csv, mode):
+        import falcon
+        import falcon.asgi
+        app = falcon.App() if surface == 'wsgi' else falcon.asgi.App()
+        app.req_options.keep_blank_qs_values, app.req_options.auto_parse_qs_csv = kb, csv
+        if mode == 'form':
+            with warnings.catch_warnings():
+                warnings.simplefilter('ignore')
+                app.req_options.auto_parse_form_urlencoded = True
+        res = Keep(mode) if surface == 'wsgi' else AKeep(mode)
+        app.add_route('/', res)
+        return app, res
+
+    def app_request(surface, app, res, q, post=False):
+        rq = drivers.Req(method='POST' if post else 'GET',
+                         query=q.encode('latin-1') if surface == 'wsgi' else q.encode('utf-8'),
+                         headers=[('Content-Type', 'application/x-www-form-urlencoded')] if post else (),
+                         body=FORM if post else b'')
+        n = len(res.reqs)
+        (drivers.wsgi_call if surface == 'wsgi' else drivers.asgi_call)(app, rq)
+        return res.reqs[n] if len(res.reqs) > n else None
+
+    pairq = ['page=2', 'x=7', 'a=1&a=2', 'a=1,2&x=7', 'tag=a%2Cb', 'n=%31%30%30%30%30%30%30%+9&a=', 'a=,&x=1'] + \
+        [rand_qs() for _ in range(ctx.pick(6, 120))]
+    pev, pmeta = [], []
+    for q in pairq:
+        if not q or any(ord(c) > 255 for c in q):
+            continue
+        for kb, csv in ((True, False), (False, True)) if ctx.quick else ((True, False), (False, True), (True, True), (False, False)):
+            for surface in ('wsgi', 'asgi'):
+                for mode in ('list', 'inner', 'params') + (('form',) if surface == 'wsgi' else ()):
+                    for level in ('request', 'app'):
+                        try:
+                            if level == 'request':      # two Request objects in one process
+                                r1 = form_request(q, kb, csv) if mode == 'form' else make_request(surface, q, kb, csv)
+                                spoil(r1, mode)
+                                second = [None]
+                            else:                       # two application instances in one process, then the first again
+                                app1, res1 = make_app(surface, kb, csv, mode)
+                                app2, res2 = make_app(surface, kb, csv, 'none')
+                                app_request(surface, app1, res1, q, post=(mode == 'form'))
+                                res1.mode = 'none'
+                                second = [app_request(surface, app2, res2, q), app_request(surface, app1, res1, q)]
+                        except Exception as ex:
+                            ctx.violation('P:exception', {'kind': 'pair', 'q': cps(q), 'kb': kb, 'csv': csv, 'surface': surface,
+                                                          'mode': mode, 'level': level}, 'request pair raised %r' % (ex,))
+                            continue
+                        for given in second:
+                            if level == 'app' and given is None:
+                                continue
+                            e, req = parse_event(surface, q, kb, csv, export=True, given=given)
+                            pev.append(dict(MUT))
+                            pmeta.append(None)
+                            pev.append(e)
+                            pmeta.append((surface, req, q, kb, csv, mode, level))
+                            ctx.case({'pair': mode, 'level': level, 'surface': surface, 'q': cps(q), 'kb': kb, 'csv': csv},
+                                     nontrivial=True, key=('pair', surface, q, kb, csv, mode, level, given is None or id(given)))
+    vs, exports = judge_each(ctx, 'QueryStringTrace', pev, per=20)
+    g2 = {}
+    for j, (e, v) in enumerate(zip(pev, vs)):
+        if pmeta[j] is None:
+            continue
+        surface, req, q, kb, csv, mode, level = pmeta[j]
+        origin = 'second request after a first one on the same query string was spoiled (%s, %s level)' % (mode, level)
+        if v is not None and v != 'ok':
+            report_parse(ctx, v, e, surface, origin)
+        if j in exports and req is not None and not e['err']:
+            getter_events_for(ctx, rng, surface, req, q, kb, csv, exports[j]['entries'], exports[j]['zero'], e['entries'],
+                              ['str', 'list', 'int', 'has'], g2, origin)
+    gl2 = list(g2.values())
+    vs, _ = judge_each(ctx, 'ParamGettersTrace', gl2, per=40)
+    for e, v in zip(gl2, vs):
+        if v is not None and v != 'ok':
+            report_getter(ctx, v, e, e['meta']['origin'])
+    ctx.extra['request_pairs'] = len(pev) // 2
+    ctx.progress('request pairs: %d second requests judged, %d getter events' % (len(pev) // 2, len(gl2)))
 
     # ---- whole-request sample: what a client sees (the responder reads a parameter) --------------
     class Res:
